@@ -251,6 +251,13 @@ pub fn c02() -> PropDef {
         check: check_c02,
         adjust: plant,
         assumptions: COMMON_ASSUMPTIONS,
+        tiny: || {
+            tiny_cases(
+                &[Term::Find { mask: 0x0006 }, Term::All { mask: 0xfff9 }],
+                &[&[], &[StageKind::Filter]],
+                &[&[1, 0, 2, 1], &[0, 2, 1], &[3, 3, 1, 2]],
+            )
+        },
     }
 }
 
@@ -579,6 +586,13 @@ pub fn c10() -> PropDef {
         check: check_c10,
         adjust: adjust_c10_entry,
         assumptions: COMMON_ASSUMPTIONS,
+        tiny: || {
+            tiny_cases(
+                &[Term::Find { mask: 0x0006 }, Term::First],
+                &[&[StageKind::Filter], &[StageKind::Map]],
+                &[&[0, 0, 1, 0, 2, 0], &[3, 1, 0, 0]],
+            )
+        },
     }
 }
 
